@@ -43,7 +43,7 @@ PROPS = {
                 relevant=lambda e: e["e"] == "attempt"),
     "C12": dict(title="keep-alive", prefixes=["C12_"], families=TRACE_FAMILIES,
                 relevant=lambda e: e["e"] == "c_pkt" and e.get("type") == "PINGREQ" or (e["e"] == "c_read_end" and e.get("ec") == "timed_out")),
-    "C13": dict(title="session_expired exactly once", prefixes=["C13_"], families=TRACE_FAMILIES,
+    "C13": dict(stages=[stages.l1_session], title="session_expired exactly once", prefixes=["C13_"], families=TRACE_FAMILIES,
                 relevant=lambda e: e["e"] == "done" and e.get("ec") == "session_expired"),
     "C14": dict(stages=[stages.l1_client], title="SUBSCRIBE/UNSUBSCRIBE verdicts", prefixes=["C14_"], families=TRACE_FAMILIES + ["misbehave"],
                 relevant=lambda e: e["e"] == "done" and e.get("kind") in ("sub", "unsub") and e.get("ec") == "ok"),
